@@ -723,11 +723,21 @@ func nonCtxArgs(c ssa.CallInstruction) []ssa.Value {
 }
 
 func runC10(e *Engine, r *Report, tier string) {
-	r.Explanation = "C10, structural clauses. Decided: R1 at every call in the precompile packages to an API that takes value from / acts for an account (subject table: pool add/cancel/fee, outgoing bridge call, EVM->coin conversion, denom conversion, ERC-20 transferFrom, share allowance owner, IBC transfer sender, staking/distribution message delegator) the subject argument has contract.Caller() as its only root — never call data, never evm.Origin; R2 the single exception: the share-transfer routine may be called with a call-data `from` only after the allowance check-and-decrement on (validator, that from, Caller(), same shares), whose shape is `allowance < x -> error; set(allowance - x)`; R3 both dispatchers test `readonly && !IsReadonly()` and the governance switch (with the 4-byte selector used for dispatch) before method.Run, each failing with an error; the go-ethereum fork passes readOnly=true for CALLCODE/DELEGATECALL/STATICCALL and false for CALL; R4 the switch check returns an error for a disabled address and for address/method; R6 a routine that moves coins out of the precompile's own account (the native coins attached to calls accumulate there) is called only with contract.Value() itself or with an amount that a dominating `amount.Cmp(value) != 0 -> error` equates with it — otherwise a caller could take what other callers left on that account. Not decided: what SDK keepers do to third parties internally."
+	r.Explanation = "C10, structural clauses. Decided: R1 at every call in the precompile packages to an API that takes value from / acts for an account (subject table: pool add/cancel/fee, outgoing bridge call, EVM->coin conversion, denom conversion, ERC-20 transferFrom, share allowance owner, IBC transfer sender, staking/distribution message delegator) the subject argument has contract.Caller() as its only root — never call data, never evm.Origin; R2 the single exception: the share-transfer routine may be called with a call-data `from` only after the allowance check-and-decrement on (validator, that from, Caller(), same shares), whose shape is `allowance < x -> error; set(allowance - x)`; R3 both dispatchers test `readonly && !IsReadonly()` and the governance switch (with the 4-byte selector used for dispatch) before method.Run, each failing with an error; the go-ethereum fork passes readOnly=true for CALLCODE/DELEGATECALL/STATICCALL and false for CALL; R4 the switch check returns an error for a disabled address and for address/method; R6 a routine that moves coins out of the precompile's own account (the native coins attached to calls accumulate there) is called only with contract.Value() itself or with an amount that a dominating `amount.Cmp(value) != 0 -> error` equates with it — otherwise a caller could take what other callers left on that account; R7 the reward bookkeeping of both parties of a share transfer (the recipient granted nothing) is the C11.R4 obligations. Not decided: what SDK keepers do to third parties internally."
 	r.Trusted = []string{"vm.Contract.Caller() is the direct caller of the precompile frame", "subject table (API name -> subject argument position) maintained in the checker"}
 	r.Rule("R1", "subject argument of value-taking APIs roots only at contract.Caller()", 12, "subject call sites in x/*/precompile")
 	r.Rule("R2", "call-data `from` accepted only behind the allowance check-and-decrement", 3, "share-transfer call sites + allowance routine")
 	r.Rule("R3", "dispatchers: readonly guard and governance switch dominate method.Run; go-ethereum readOnly flags", 8, "2 dispatchers x 3 + 4 EVM call kinds")
+	r.Rule("R7", "a share transfer leaves the recipient's (a third party's) reward entitlement intact: rewards withdrawn first, F1 bookkeeping paired, every starting-info stake recomputed from that delegation's own shares (C11.R4)", 4, "C11 obligations")
+	{
+		sub11 := NewReport("C11", "other")
+		runC11(e, sub11, tier)
+		for _, o := range sub11.Obls {
+			if o.Rule == "R4" {
+				r.add("R7", "C11.R4 "+o.Construct, o.Status, o.Pos, o.Detail)
+			}
+		}
+	}
 	r.Rule("R6", "the precompile account pays out exactly msg.value of the current call: the pay-out routine's amount is contract.Value() or guarded equal to it", 2, "call sites of routines that move coins out of the precompile's own account")
 	e.c10PayoutEqualsValue(r)
 	r.Rule("R5", "a queued withdrawal keeps its owner: a fee increase re-adds the record it read, unchanged in id / sender / destination / token (C05.R5 identity)", 1, "C05 obligations")
